@@ -95,9 +95,15 @@ func (c *Catalog) tagsFromTagsDirective(d *directive.Directive) ([]*Tag, *jerr.J
 	}
 
 	tt := make([]*Tag, 0, d.UnnamedParametersLen())
+	seen := make(map[TagName]struct{}, d.UnnamedParametersLen())
 
 	for _, name := range d.UnnamedParameter() {
 		tn := TagName(name)
+
+		if _, ok := seen[tn]; ok {
+			continue // the same tag is specified twice
+		}
+		seen[tn] = struct{}{}
 
 		t, ok := c.Tags.Get(tn)
 		if !ok {
